@@ -38,25 +38,26 @@ Variable theta : nat -> A.
 Variable dur : nat -> D.
 
 Notation M := (mat R).
-Notation op1 := (op1 A D).
+Notation op1 := (op1 A V).
 Notation op2 := (kind2 * bool)%type.
 Notation pop := (pop op1 op2).
 Notation own_run := (own_run R radd rmul A D V val ph g1 g2 grelax gflip).
 Notation own_shot := (own_shot A D V val ph M (mid2 R rO rI) (gs R V g1 g2 grelax gflip)).
-Notation pops_of_calls := (pops_of_calls A D).
+Notation pops_of_calls := (pops_of_calls A D V val).
 
 (* the physical circuit: the operations of the instruction list, each on its own label(s) *)
-Definition own_pops (used : list N) (jx : nat * qinstr) : list pop :=
-  let j := fst jx in let x := snd jx in
+Definition pops_annot (used : list N) (th : A) (du : D) (x : qinstr) : list pop :=
   match iname x with
-  | OpRz => match iqs x with [q] => [P1 op1 op2 (O1rz A D (theta j)) (N.to_nat q)] | _ => [] end
-  | OpSx => match iqs x with [q] => [P1 op1 op2 (O1g A D KSX) (N.to_nat q)] | _ => [] end
-  | OpX => match iqs x with [q] => [P1 op1 op2 (O1g A D KX) (N.to_nat q)] | _ => [] end
+  | OpRz => match iqs x with [q] => [P1 op1 op2 (O1rz A V th) (N.to_nat q)] | _ => [] end
+  | OpSx => match iqs x with [q] => [P1 op1 op2 (O1g A V KSX) (N.to_nat q)] | _ => [] end
+  | OpX => match iqs x with [q] => [P1 op1 op2 (O1g A V KX) (N.to_nat q)] | _ => [] end
   | OpCx => match iqs x with [c; t] => [P2 op1 op2 (KCX, (c <? t)%N) (N.to_nat c) (N.to_nat t)] | _ => [] end
   | OpEcr => match iqs x with [c; t] => [P2 op1 op2 (KECR, (c <? t)%N) (N.to_nat c) (N.to_nat t)] | _ => [] end
-  | OpDelay => match iqs x with [q] => if memN q used then [P1 op1 op2 (O1relax A D (dur j)) (N.to_nat q)] else [] | _ => [] end
+  | OpDelay => match iqs x with [q] => if memN q used then [P1 op1 op2 (O1relax A V (val (Ttime du))) (N.to_nat q)] else [] | _ => [] end
   | OpMeasure | OpBarrier | OpOther => []
   end.
+(* the instruction at position j carries the angle theta j and the duration dur j *)
+Definition own_pops (used : list N) (jx : nat * qinstr) : list pop := pops_annot used (theta (fst jx)) (dur (fst jx)) (snd jx).
 Definition own_circ (used : list N) (data : list qinstr) : list pop := flat_map (own_pops used) (numbered data).
 
 (* one instruction: its calls are body calls, and their operations are own_pops *)
@@ -66,7 +67,7 @@ Lemma own_calls_pops used jx : rank_layout used -> wf_qiskit (snd jx) -> covered
   Forall (pop_on op1 op2 (labels used)) (own_pops used jx).
 Proof.
   intros RL. assert (ND : NoDup (labels used)) by (apply NoDup_map_to_nat; exact (proj1 RL)).
-  destruct jx as [j x]. cbn [snd]. unfold wf_qiskit, covered, own_calls, own_pops. cbn [fst snd].
+  destruct jx as [j x]. cbn [snd]. unfold wf_qiskit, covered, own_calls, own_pops, pops_annot. cbn [fst snd].
   destruct (iname x) eqn:En; cbn [is_delay]; intros W C.
   - destruct W as (q & Eq). rewrite Eq. destruct (memN q used) eqn:Em.
     + apply memN_In in Em. pose proof (in_labels q used Em) as Hin.
